@@ -120,6 +120,8 @@ struct World {
     foreign_pages: Vec<(Arena, u8)>,
     foreign_pages_checked: u64,
     refused_attempts: u64,
+    selffake_trials: u64,
+    munmap_refused_exits: u64,
     /// start addresses of every function the harness knows (targets and never-named neighbours), sorted
     starts: Vec<usize>,
 }
@@ -214,6 +216,8 @@ pub fn run(ctx: &Ctx) {
         foreign_pages: Vec::new(),
         foreign_pages_checked: 0,
         refused_attempts: 0,
+        selffake_trials: 0,
+        munmap_refused_exits: 0,
         starts: Vec::new(),
     };
     w.starts = w.pool.targets.iter().map(|t| t.addr).chain(w.pool.neighbours.iter().map(|n| n.0)).chain(w.pool.synth.slots.iter().map(|s| s.0)).collect();
@@ -434,6 +438,8 @@ fn summary_json(w: &World, decided: u64) -> J {
         .n("canaries", w.canaries.len())
         .n("canaries_placed_at_freed_trampoline_addresses_and_checked", w.reuse_canaries_checked)
         .n("refused_installations_inside_histories", w.refused_attempts)
+        .n("self_fake_installations_tried", w.selffake_trials)
+        .n("scope_exits_with_munmap_refused", w.munmap_refused_exits)
         .n("foreign_pages_on_early_freed_trampolines_checked", w.foreign_pages_checked)
         .o("counters", ip::counters_json())
 }
@@ -500,6 +506,11 @@ fn refused_attempt(inj: &mut InjectorPP, t: &Target, variant: usize) -> bool {
         _ => inj.when_called((t.mk)()).will_return_boolean(true),
     }))
     .is_err()
+}
+
+#[inline(never)]
+fn selffake_victim() -> i32 {
+    std::hint::black_box(0x5E1F)
 }
 
 fn lifetime(w: &mut World, mons: &Mons, p: &Plan, rng: &mut Rng) -> (Verdict, String, J) {
@@ -668,6 +679,20 @@ fn lifetime(w: &mut World, mons: &Mons, p: &Plan, rng: &mut Rng) -> (Verdict, St
                 }
             }
         }
+        // C12: an installation whose fake is the faked function itself, on a function that is never called. The
+        // library may accept it (then it is one more installation whose trampoline must go at scope exit) or refuse
+        // it (then nothing may stay mapped) - either way the ledger says which
+        if mons.c12 && viol.is_none() && p.steps.len() % 8 == 3 {
+            let led0 = ip::ledger_len();
+            let r = std::panic::catch_unwind(std::panic::AssertUnwindSafe(|| ip::lib(|| inj.when_called(injectorpp::func!(fn (selffake_victim)() -> i32)).will_execute_raw(injectorpp::func!(fn (selffake_victim)() -> i32)))));
+            w.selffake_trials += 1;
+            let grown = ip::ledger_len() as i64 - led0 as i64;
+            if r.is_err() && grown != 0 {
+                *viol = Some(("c12:refused-installation-kept-a-mapping".into(), J::new().s("installation", "a function faked with itself").n("mappings_kept", grown)));
+            } else if r.is_ok() && grown != 1 {
+                *viol = Some(("c12:install-kept-other-than-one-mapping".into(), J::new().s("installation", "a function faked with itself").n("kept", grown)));
+            }
+        }
         if p.exit == Exit::UserPanic {
             return (inj, true);
         }
@@ -699,6 +724,13 @@ fn lifetime(w: &mut World, mons: &Mons, p: &Plan, rng: &mut Rng) -> (Verdict, St
         let before = if mons.c17 { Some(watch_images(w)) } else { None };
         let m0 = ip::mark();
         before_drop_marks.set(m0);
+        // C17 on its own: in one lifetime out of 40 the OS refuses every munmap of the scope exit; the restored
+        // entries must be flushed all the same
+        let refuse_munmap = mons.c17 && !mons.c12 && !mons.c03 && !mons.c02 && !user_panic && p.exit == Exit::Normal && w.lifetimes % 40 == 7;
+        if refuse_munmap {
+            w.munmap_refused_exits += 1;
+            ip::arm_fail_range(ip::K_MUNMAP, 0, i64::MAX);
+        }
         let r = std::panic::catch_unwind(std::panic::AssertUnwindSafe(|| {
             ip::lib(|| {
                 let _scope_owner = inj;
@@ -707,11 +739,14 @@ fn lifetime(w: &mut World, mons: &Mons, p: &Plan, rng: &mut Rng) -> (Verdict, St
                 }
             })
         }));
+        if refuse_munmap {
+            ip::disarm_all();
+        }
         if mons.c17 && viol.is_none() {
             let after = watch_images(w);
             let ev = ip::since(m0).unwrap_or_default();
             if let Some(v) = flush_check(w, before.as_ref().unwrap(), &after, &[], &ev) {
-                viol = Some((v.0, v.1.s("during", "drop")));
+                viol = Some((v.0, v.1.s("during", if refuse_munmap { "drop with munmap refused" } else { "drop" })));
             }
         }
         if let Err(e) = r {
